@@ -7,6 +7,7 @@ already on the element ("pre_errors").
 """
 import copy
 import itertools
+import re
 from urllib import parse as _urlparse
 
 from harness.core import Property
@@ -113,6 +114,13 @@ def mk_validator(vd):
         return C(d.pop("minimum"), **d)
     if cls == "ValueBetween":
         return C(d.pop("minimum"), d.pop("maximum"), **d)
+    if cls == "IsEmail":
+        kw = dict(d)
+        if kw.get("local_part_pattern") is not None:
+            kw["local_part_pattern"] = re.compile(kw["local_part_pattern"])
+        else:
+            kw.pop("local_part_pattern", None)
+        return C(**kw)
     if cls == "URLValidator":
         kw = {}
         if d.get("allowed_schemes") is not None:
@@ -207,6 +215,9 @@ def view_of(case, el):
             view["idna"] = dom.encode("idna").decode("ascii")
         except UnicodeError:
             view["idna"] = None
+        pat = case["v"].get("local_part_pattern")
+        if pat is not None:
+            view["local_ok"] = bool(re.compile(pat).match(val.split("@")[0]))
     if cls == "URLValidator" and isinstance(val, str):
         try:
             view["url_parts"] = list(_urlparse.urlparse(val.strip()))
@@ -306,31 +317,34 @@ def _luhn_textbook(n):
     return total % 10 == 0
 
 
-def _email_documented(value, non_local):
-    """docs of IsEmail: local-part present with a non-whitespace character; domain present, IDN form at most
-    253 characters, each dot-separated component 1..63 of [a-z0-9-]; two components unless non_local is off.
-    Returns None where the documentation is ambiguous (exactly 253)."""
+# the documented default of IsEmail.domain_pattern (pinned against the source by harness/extractors/c15.py)
+_DOMAIN_RE = re.compile(r"^(?:[a-z0-9\-]+\.)*[a-z0-9\-]+$", re.IGNORECASE)
+
+
+def _email_documented(value, non_local, local_part_pattern=None):
+    """IsEmail's docstring, computed with the idna codec itself: exactly one '@'; a local part with at least one
+    non-whitespace character (matching local_part_pattern when one is set); the domain converts to IDN form and
+    *that form* is at most 253 characters, matches the domain pattern, has every dot-separated component of at
+    most 63 characters, and at least two components unless non_local is off."""
     if value is None or value.count("@") != 1:
         return False
     local, domain = value.split("@")
-    if local == "" or local.strip() == "" or all(ch.isspace() for ch in local):
+    if not any(not ch.isspace() for ch in local):
+        return False
+    if local_part_pattern is not None and not re.compile(local_part_pattern).match(local):
         return False
     try:
         ascii_domain = domain.encode("idna").decode("ascii")
     except UnicodeError:
         return False
-    if len(ascii_domain) == 253:
-        return None
     if len(ascii_domain) > 253:
         return False
-    if ascii_domain.endswith("\n"):
-        return None  # `$` quirk of the pattern: no promise either way
-    comps = ascii_domain.split(".")
-    import string
-    ok = set(string.ascii_letters + string.digits + "-")
-    if any(c == "" or len(c) > 63 or not set(c) <= ok for c in comps):
+    if not _DOMAIN_RE.match(ascii_domain):
         return False
+    comps = ascii_domain.split(".")
     if non_local and len(comps) < 2:
+        return False
+    if any(len(c) > 63 for c in comps):
         return False
     return True
 
@@ -450,7 +464,7 @@ def documented(case, el):
         n = int(el.value)
         return (n >= 0 and _luhn_textbook(n)), ("invalid", {})
     if cls == "IsEmail" and kind == "String":
-        return _email_documented(el.value, v.get("non_local", True)), ("invalid", {})
+        return _email_documented(el.value, v.get("non_local", True), v.get("local_part_pattern")), ("invalid", {})
     if cls == "URLValidator" and kind == "String":
         if el.value is None:
             return False, ("bad_format", {})
@@ -768,6 +782,75 @@ URLS = ["http://example.com/", "https://example.com/a?b=1#frag", "ftp://example.
         "http://[invalid]/", "http://a]b/"]
 
 
+IDN_LABELS = ["snow\u2603man", "b\u00fccher", "\u65e5\u672c", "\u2603", "\u00e9" + "a" * 55, "\u00e9" + "a" * 56, "\u00e9" * 20, "m\u00fcnchen"]
+ASCII_LABELS = ["a", "com", "example", "x" * 10, "x" * 30, "x" * 60, "x" * 62, "x" * 63, "x" * 64, "a-b", "A1"]
+
+
+def _idna_len(dom):
+    try:
+        return len(dom.encode("idna"))
+    except UnicodeError:
+        return None
+
+
+def email_length_domain(rng):
+    """a domain of mixed ASCII / non-ASCII labels whose length, as text and in IDN form, is steered to one of
+    the classes around 253 (in particular text <= 253 < IDN)"""
+    target = rng.choice(["both-short", "idna-just-under", "idna-just-over", "text-under-idna-over", "text-just-over", "random"])
+    labels = []
+    if target == "random":
+        for _ in range(rng.randint(1, 30)):
+            labels.append(rng.choice(IDN_LABELS + ASCII_LABELS))
+        return ".".join(labels)
+    filler = rng.choice(["snow\u2603man", "b\u00fccher", "\u2603", "m\u00fcnchen", "x" * 20])
+    mix = rng.random() < 0.5
+    while True:
+        nxt = labels + [filler if not (mix and rng.random() < 0.4) else rng.choice(["x" * rng.randint(1, 40), "abc", "example"])]
+        dom = ".".join(nxt + ["com"])
+        il = _idna_len(dom)
+        if il is None:
+            return dom
+        tl = len(dom)
+        if target == "both-short" and il > 120:
+            break
+        if target == "idna-just-under" and il > 253:
+            break
+        if target == "idna-just-over" and il > 253:
+            labels = nxt
+            break
+        if target == "text-under-idna-over" and il > 253 + rng.choice([0, 5, 60, 150]):
+            labels = nxt if tl <= 253 else labels
+            break
+        if target == "text-just-over" and tl > 253:
+            labels = nxt
+            break
+        labels = nxt
+        if len(labels) > 80:
+            break
+    dom = ".".join(labels + ["com"])
+    # pad with a short ASCII label to land exactly on / next to the boundary sometimes
+    il = _idna_len(dom)
+    if il is not None and target in ("idna-just-under", "idna-just-over") and rng.random() < 0.6:
+        want = 253 if target == "idna-just-under" else 254
+        pad = want - il - 1
+        if 1 <= pad <= 63:
+            dom = "p" * pad + "." + dom
+    return dom
+
+
+def email_class(value):
+    """coverage tag: where the domain's length lies as text and in IDN form"""
+    if not isinstance(value, str) or value.count("@") != 1:
+        return None
+    dom = value.split("@")[1]
+    il = _idna_len(dom)
+    if il is None:
+        return "email-idna=unconvertible"
+    t = "text<=253" if len(dom) <= 253 else "text>253"
+    i = "idna<=253" if il <= 253 else "idna>253"
+    return "email-%s,%s%s" % (t, i, ",non-ascii" if any(ord(c) > 127 for c in dom) else "")
+
+
 def rand_net_case(rng):
     cls = rng.choice(["IsEmail", "URLValidator", "HTTPURLValidator", "URLCanonicalizer"])
     b = {"kind": "String", "name": rng.choice(["email", "url", None])}
@@ -776,14 +859,18 @@ def rand_net_case(rng):
     if cls == "IsEmail":
         if r < 0.1:
             b["set"] = None
-        elif r < 0.8:
+        elif r < 0.45:
             b["set"] = rng.choice(EMAILS)
+        elif r < 0.8:
+            b["set"] = rng.choice(["bob", "bob", "a.b", "\u00fc", " ", ""]) + "@" + email_length_domain(rng)
         else:
             loc = rng.choice(["u", "", " ", "a.b", "ü", "a b"])
             dom = ".".join(rng.choice(["a", "exa-mple", "", "x" * 63, "x" * 64, "é", "A1", "-", "a_b"]) for _ in range(rng.randint(1, 4)))
             b["set"] = loc + rng.choice(["@", "@", "@", "", "@@"]) + dom
         if rng.random() < 0.3:
             v["non_local"] = False
+        if rng.random() < 0.15:
+            v["local_part_pattern"] = rng.choice(["^[a-z.]+$", "^bob$", "^\\S+$", "b"])
     else:
         if r < 0.1:
             b["set"] = None
@@ -869,6 +956,7 @@ class C15(Property):
     proof_module = "Proofs.C15"
     theorems = ["Flatland.C15.Proofs." + t for t in (
         "decides", "C15_full", "setWith_nontext_key_reported", "setWith_bad_pairs_valid",
+        "decides_isEmail", "isEmail_length_on_idna", "isEmail_accepts_short_idna",
         "value_preserved", "messages", "messages_total", "false_verdict_records_one", "true_verdict_records_nothing",
         "verdict_shape",
         "luhn_pairs_eq_digits", "luhn10Check_eq", "notdup_first_kept",
@@ -895,12 +983,13 @@ class C15(Property):
     ]
     level_text = "proof"
     level_note = ("partial: the per-class decision theorems, Luhn equivalence, first-occurrence, value preservation and message theorems are proved for all "
-                  "inputs on model A; IsEmail/URLValidator/HTTPURLValidator/URLCanonicalizer are modelled for control flow only (urlparse/idna opaque) and "
+                  "inputs on model A; IsEmail is decided relative to the opaque idna conversion (all length assertions on the converted domain: isEmail_length_on_idna); "
+                  "URLValidator/HTTPURLValidator/URLCanonicalizer are modelled for control flow only (urlparse opaque) and "
                   "rest on correspondence; the full statement C15_Full is proved (the former exceptions D-C15-5/6/7 are fixed in /repo)")
     technique = "Lean 4 model + theorems (refinement to the documented predicate per class) + differential correspondence + Python oracle"
     rule = ("every validator class x random parameterisations x String/Integer/Boolean elements set with None / adapted / unadapted text / blank / never set, "
             "List/Array with 0-5 members, members with duplicates at random positions, Dicts set with dict / pairs / flat / non-iterable / malformed raw values, "
-            "e-mail and URL shape pools plus random assembly; 6% hostile stream (validator on an element kind it is not documented for, missing field path, "
+            "e-mail and URL shape pools plus random assembly, e-mail domains of mixed ASCII / non-ASCII labels steered to every side of 253 characters as text and in IDN form (incl. text <= 253 < IDN), optional local_part_pattern; 6% hostile stream (validator on an element kind it is not documented for, missing field path, "
             "negative counts, None bounds); 20% of cases start with pre-existing errors (incl. the very message).  non-trivial = the validator returned a verdict")
 
     def corpus(self):
@@ -920,6 +1009,10 @@ class C15(Property):
         # 88e2ca0 Luhn10 on a negative number
         out.append({"v": {"cls": "Luhn10"}, "build": {"kind": "Integer", "name": "cc", "set": -5}})
         out.append({"v": {"cls": "Luhn10"}, "build": {"kind": "Integer", "name": "cc", "set": 4111111111111111}})
+        # seeded C15-email-length-before-idna: 25 labels `snow☃man` + .com are 228 characters as text, 428 in IDN form
+        for n_lab in (14, 15, 25):
+            out.append({"v": {"cls": "IsEmail"}, "build": {"kind": "String", "name": "email",
+                                                          "set": "bob@" + ".".join(["snow\u2603man"] * n_lab) + ".com"}})
         # fixed 5e93603 (D-C15-5: raw items that are not pairs), 7308ea3 (D-C15-6: a key that is not text)
         out.append({"v": {"cls": "SetWithKnownFields"}, "build": {"kind": "Dict", "name": "d", "fields": ["a", "b"], "raw": {"t": "str", "s": "abc"}}})
         out.append({"v": {"cls": "SetWithAllFields"}, "build": {"kind": "Dict", "name": "d", "fields": ["a", "b"], "raw": {"t": "triples"}}})
@@ -950,6 +1043,16 @@ class C15(Property):
                 for hi in range(bound, 5):
                     if tier == "thorough" or hi - bound <= 1:
                         yield finish({"v": {"cls": "HasBetween", "minimum": bound, "maximum": hi}, "build": dict(base)})
+        # IsEmail: 1..32 international labels (8 characters as text, 16 in IDN form) and 1..5 ASCII labels of 60/63
+        for n_lab in range(1, 33):
+            for lab in ("snow\u2603man", "b\u00fccher"):
+                for nl in (True, False):
+                    yield finish({"v": {"cls": "IsEmail", "non_local": nl},
+                                  "build": {"kind": "String", "name": "email", "set": "bob@" + ".".join([lab] * n_lab) + ".com"}})
+        for n_lab in range(1, 6):
+            for ln in (60, 62, 63, 64):
+                yield finish({"v": {"cls": "IsEmail"}, "build": {"kind": "String", "name": "email",
+                                                                "set": "bob@" + ".".join(["x" * ln] * n_lab) + ".com"}})
         # Luhn: every number below 2000 (thorough: 20000)
         top = 20000 if tier == "thorough" else 2000
         for n in range(0, top):
@@ -957,7 +1060,7 @@ class C15(Property):
 
     exhaustive_note = ("every comparison class at value = bound-1, bound, bound+1, None, unadapted; length classes at every length 0..6; "
                        "NotDuplicated with one duplicate at every pair of positions of a 4-member List/Array checked at every index; "
-                       "member counts 0..5 against every bound 0..4; Luhn10 on every integer below 2000 (thorough: 20000)")
+                       "member counts 0..5 against every bound 0..4; IsEmail on 1..32 international labels (text length vs IDN length around 253) and on 60/62/63/64-character ASCII labels; Luhn10 on every integer below 2000 (thorough: 20000)")
 
     def generate(self, rng, n, tier):
         for _ in range(n):
@@ -1004,6 +1107,12 @@ class C15(Property):
                 t.append("unadapted-text")
         if case.get("pre_errors"):
             t.append("pre-errors")
+        if v["cls"] == "IsEmail":
+            ec = email_class(view.get("value"))
+            if ec:
+                t.append(ec)
+            if v.get("local_part_pattern") is not None:
+                t.append("email-local-pattern")
         return t
 
     def shrink_candidates(self, case):
